@@ -18,8 +18,8 @@ from engine.symsum import summary
 PID = 'C22'
 
 META = {
-    'technique': 'per-subscript reaching-definition classification against wrap idioms parameterised by the allocation depth read from the constructor (type-resolved queue fields, whole-program stores to head/tail fields) + sibling agreement of the order-hint distance helpers',
-    'text': 'Decides, for every one of the ~190 subscripts of the eight circular queues and for every store to their head/tail cursors anywhere in the encoder, that the index is reduced modulo the depth that queue was allocated with - the condition under which streams longer than the queue depth keep indexing inside the array - and that the duplicated signed-distance helpers agree. It does not decide that the distance formula is the right one nor decodability of long streams.',
+    'technique': 'per-subscript reaching-definition classification against wrap idioms parameterised by the allocation depth read from the constructor (type-resolved queue fields, whole-program stores to head/tail fields) + sibling agreement of the order-hint distance helpers; finite enumeration of configuration guards with conditional constant propagation (lookup of the rate-control interval ring versus the calls that re-key it)',
+    'text': 'Decides, for every one of the ~190 subscripts of the eight circular queues and for every store to their head/tail cursors anywhere in the encoder, that the index is reduced modulo the depth that queue was allocated with - the condition under which streams longer than the queue depth keep indexing inside the array - and that the duplicated signed-distance helpers agree. It does not decide that the distance formula is the right one nor decodability of long streams. Also decided: in every rate-control configuration in which the kernel searches the GOP-interval ring by picture number, a call that moves used-up intervals one lap ahead is reachable (otherwise the stream stops after one lap of the ring).',
     'note': 'functions that are dead code (print_pd_reord_queue, get_reord_q_size) are ignored and reported if they become reachable; pre_assignment_buffer is a linear buffer, not a ring',
     'ref': 'DESIGN.md section 5 C22',
 }
@@ -330,3 +330,85 @@ def run(P, rep, tier):
                'agrees with %d sibling(s)' % (len(ref) - 1) if same else
                'differs from the majority of its siblings (%s): %s vs %s' % ([x.loc() for x in ref][:2], norm(g), norm(ref[0])))
     rep.floor('C22.DIST', 3)
+
+    run_rekey(P, rep)
+
+
+# ---------------- REKEY: a ring whose entries are found by a key range (first_poc .. last_poc of a GOP interval) serves a stream longer
+# than the ring only if the entries are re-keyed one lap ahead once they are used up.  The lookup and the re-keying sit under different
+# configuration guards in the rate-control kernel; on every configuration in which the lookup runs, a call that reaches a re-keying store
+# must be able to run too.  Decided by enumerating the configuration predicates the guards read (finite: mode, finite / infinite
+# period, two-pass statistics, look-ahead processing) and propagating constants through the kernel for each assignment.
+def run_rekey(P, rep):
+    from rules.C20 import sccp
+    K = P.fn('rate_control_kernel')
+    # re-keying stores: KEY += <something with the ring depth>, on a member named like the lookup keys
+    keys = set()
+    lookups = []
+    for par, kind, cond, line in K.ctl:
+        pass
+    for ev in K.events(('st', 'decl', 'call')):
+        pass
+    # lookup: comparisons of the picture number with members of the ring entries, evaluated inside a search loop of the kernel
+    for bid, blk in K.blocks.items():
+        c = blk.get('cond')
+        if c is None or not any(x[0] == 'm' and x[1].endswith('.picture_number') for x in subexprs(c)):
+            continue
+        ms = [x[1] for x in subexprs(c) if x[0] == 'm' and not x[1].endswith('.picture_number') and any(y[0] == 'i' for y in subexprs(x))]
+        if ms and any(ev2.get('ctl') is not None and any(k == 'while' for k, c2, l2 in K.ctl_chain(ev2)) for ev2 in blk['ev'][:1] + blk['ev'][-1:]) or \
+           ms and any(k == 'while' for par, k, c2, l2 in [K.ctl[i2] for i2 in range(len(K.ctl)) if K.ctl[i2][3] <= (blk['ev'][0]['l'] if blk['ev'] else 0) <= K.ctl[i2][3] + 12]):
+            keys |= set(ms)
+            lookups.append(bid)
+    if not lookups:
+        raise AnalysisBroken('the interval lookup of rate_control_kernel was not found')
+    rekey_fns = {}
+    for g in P.fns:
+        if g.lib != 'Encoder' or g.nocfg:
+            continue
+        for ev in g.events(('st',)):
+            e = ev['e']
+            if e[0] == 'a' and e[1] == '+=' and strip(e[2]) is not None and strip(e[2])[0] == 'm' and strip(e[2])[1] in keys:
+                rekey_fns.setdefault(g, []).append(strip(e[2])[1])
+    if not rekey_fns:
+        raise AnalysisBroken('no re-keying store of the rate-control interval ring found')
+    calls = [(ev, n) for ev, n in K.calls() if n and any(h in rekey_fns for h in P.reachable_from([P.fn(n, required=False)] if P.fn(n, required=False) is not None else []))]
+    if not calls:
+        raise AnalysisBroken('rate_control_kernel calls no function that re-keys the ring')
+    CFG = 'EbSvtAv1EncConfiguration.'
+    n = 0
+    bad = []
+    # look-ahead processing: only the values the configuration code can give it (objects start zero-filled)
+    lap_vals = {0}
+    for g in P.fns:
+        if g.lib != 'Encoder' or g.nocfg:
+            continue
+        for ev in g.events(('st',)):
+            e = ev['e']
+            if e[0] == 'a' and strip(e[2]) is not None and strip(e[2])[0] == 'm' and strip(e[2])[1] == 'SequenceControlSet.lap_enabled':
+                r = strip(e[3])
+                if e[1] == '=' and r is not None and r[0] == 'l':
+                    lap_vals.add(r[1])
+                elif e[1] == '=' and r is not None and r[0] == 'm' and r[1] == 'SequenceControlSet.lap_enabled':
+                    pass
+                else:
+                    lap_vals |= {0, 1}
+    for mode in (1, 2):
+        for twopass in (0, 1):
+            for lap in sorted(lap_vals):
+                env = {CFG + 'rate_control_mode': mode, 'SequenceControlSet.intra_period_length': 31, CFG + 'intra_period_length': 31,
+                       'SequenceControlSet.lap_enabled': lap, 'call:use_input_stat': twopass, 'call:use_output_stat': 0}
+                ins, tr = sccp(K, env)
+                look = [b for b in lookups if b in ins]
+                if not look:
+                    continue
+                n += 1
+                rk = [nm for ev, nm in calls if ev['b'] in ins]
+                desc = 'rate_control_mode %d, finite period, %s, look-ahead processing %s' % (mode, 'two-pass statistics' if twopass else 'one pass', 'on' if lap else 'off')
+                if not rk:
+                    bad.append(desc)
+                rep.ob('C22.REKEY', 'rate_control_kernel/mode%d-twopass%d-lap%d' % (mode, twopass, lap), bool(rk), K.loc(),
+                       ('%s: the interval ring is searched by picture number and %s can re-key it' % (desc, rk[0])) if rk else
+                       ('%s: rate_control_kernel searches the %d-entry interval ring by picture number, but no call that re-keys the ring (%s) is reachable in this configuration: after one lap of the ring no interval matches, the kernel reports "No RC interval found" and the stream stops' %
+                        (desc, 256, ', '.join(sorted(g.name for g in rekey_fns)))))
+    rep.analysed['rekey_configurations'] = n
+    rep.floor('C22.REKEY', 4)
